@@ -212,23 +212,23 @@ def rule_send(ctx):
     cl = p.trees["client.py"]
     n_sites = 0
     for n in ast.walk(cl):
-        if isinstance(n, ast.BinOp) and isinstance(n.op, ast.Add) and isinstance(n.left, ast.Constant) and isinstance(n.left.value, str) and n.left.value.strip().upper() in verbs:
-            verb = n.left.value.strip()
-            if verb in ("PASS", "USER", "TYPE", "REST", "ACCT"):
-                continue
-            n_sites += 1
-            r = n.right
-            ok = isinstance(r, ast.Call) and isinstance(r.func, ast.Name) and r.func.id == "str" and len(r.args) == 1 and isinstance(r.args[0], (ast.Name, ast.Attribute)) \
-                and n.left.value == verb + " "
-            ctx.ob("C08.SEND", n, f"{verb}: command is {verb!r}+' '+str(path)", ok, f"path argument of {verb} is transformed before sending: `{src(n)}`", construct=f"{verb}:{src(r)[:50]}")
-            par = p.parent.get(n)
-            if isinstance(par, ast.Attribute) or (isinstance(par, ast.Call) and isinstance(par.func, ast.Attribute) and par.func.value is n):
-                pass
+        if not isinstance(n, (ast.BinOp, ast.JoinedStr)) or isinstance(p.parent.get(n), (ast.BinOp, ast.JoinedStr, ast.FormattedValue)):
+            continue
+        prefix, r = literal_prefix(p, n)
+        if prefix is None or r is None or prefix.strip().upper() not in verbs or prefix != prefix.upper():
+            continue
+        verb = prefix.strip()
+        if verb in ("PASS", "USER", "TYPE", "REST", "ACCT"):
+            continue
+        n_sites += 1
+        ok = isinstance(r, ast.Call) and isinstance(r.func, ast.Name) and r.func.id == "str" and len(r.args) == 1 and isinstance(r.args[0], (ast.Name, ast.Attribute)) \
+            and prefix == verb + " "
+        ctx.ob("C08.SEND", n, f"{verb}: command is {verb!r}+' '+str(path)", ok, f"path argument of {verb} is transformed before sending: `{src(n)}`", construct=f"{verb}:{src(r)[:50]}")
     # the whole-command .strip() in the lister only removes the space after the verb when the path is empty
     for n in ast.walk(cl):
-        if isinstance(n, ast.Call) and isinstance(n.func, ast.Attribute) and n.func.attr in ("strip", "lstrip", "lower", "upper", "replace") and isinstance(n.func.value, ast.BinOp) \
-                and isinstance(n.func.value.left, ast.Constant) and str(n.func.value.left.value).strip().upper() in verbs:
-            verb = n.func.value.left.value.strip()
+        if isinstance(n, ast.Call) and isinstance(n.func, ast.Attribute) and n.func.attr in ("strip", "lstrip", "lower", "upper", "replace") and isinstance(n.func.value, (ast.BinOp, ast.JoinedStr)) \
+                and (literal_prefix(p, n.func.value)[0] or "").strip().upper() in verbs:
+            verb = literal_prefix(p, n.func.value)[0].strip()
             ok = n.func.attr == "strip" and not n.args
             ctx.ob("C08.SEND", n, f"{verb}: whole-command strip() (drops the trailing space of an argument-less command; names have no trailing whitespace by the property's domain)", ok,
                    f"{verb}: the command is transformed with `{n.func.attr}` after the path was appended", construct=f"{verb}:command {n.func.attr}")
@@ -257,9 +257,10 @@ def rule_sep(ctx):
     keys = [k.value for d in walk_no_nested(facts) if isinstance(d, ast.Dict) for k in d.keys if isinstance(k, ast.Constant)]
     ctx.ob("C08.SEP", facts, f"fact names {keys} contain no space/semicolon/equals", all(isinstance(k, str) and not set(k) & set(" ;=") for k in keys), "a fact name contains a separator character", construct="mlsx:fact names")
     bl = S["build_list_string"]
-    tup = [n for n in walk_no_nested(bl) if isinstance(n, ast.Tuple) and len(n.elts) >= 6]
+    from .c07 import list_fields
+    fields = list_fields(p, bl)
     lp = [a.arg for a in bl.args.args][-1]
-    ok = bool(tup) and src(tup[0].elts[-1]) == f"{lp}.name"
+    ok = bool(fields) and src(fields[-1]) == f"{lp}.name"
     ctx.ob("C08.SEP", bl, "LIST: the name is the last field, unmodified", ok, "LIST writer does not put path.name last", construct="list:name last")
     # listing lines: (s + END_OF_LINE).encode(encoding) written whole
     for h, w in p.workers():
